@@ -449,7 +449,10 @@ func (s *Solver) Check(asserts []*Term, wantModel bool) (SatResult, Model) {
 	r, m, _ := s.runOn(first, script, vars, true)
 	if r == Unknown {
 		r, m, _ = s.runOn(second, script, vars, true)
-	} else if s.diffAll {
+	} else if s.diffAll && r == Unsat {
+		// Thorough tier: every "unsat" (an assertion that holds, a branch that is
+		// pruned) is re-decided by the second solver. A "sat" answer carries a model
+		// that is validated by evaluation below, so it needs no second opinion.
 		r2, _, _ := s.runOn(second, script, vars, false)
 		if r2 != Unknown && r2 != r {
 			if s.log != nil {
